@@ -361,7 +361,10 @@ pub fn run(ctx: &Ctx) -> i32 {
     // first child of up to 3 nodes x every second child of up to 2 (thorough 3) nodes, under a few option vectors
     {
         let firsts: Vec<&Dyn> = by.iter().take(4).flatten().collect();
-        let seconds: Vec<&Dyn> = by.iter().take(ctx.tier.pick(3, 4)).flatten().collect();
+        // quick: as second child every leaf and every one-child container around an integer / a multi-line string
+        // (what can leak is decided by how the second child starts); thorough: everything up to 3 nodes
+        let quick_seconds: Vec<Dyn> = leaves().into_iter().chain((0..ARITY1.len()).flat_map(|s| [build1(s, Dyn::I64(7)), build1(s, Dyn::s("l1\nl2"))])).collect();
+        let seconds: Vec<&Dyn> = if ctx.tier == Tier::Quick { quick_seconds.iter().collect() } else { by.iter().take(4).flatten().collect() };
         let sopts = [SerOpts::default(), SerOpts { compact: true, ..SerOpts::default() }, SerOpts { indent: 3, ..SerOpts::default() }, SerOpts { no_empty_braces: true, ..SerOpts::default() }];
         let (nf, ns, no) = (firsts.len() as u64, seconds.len() as u64, sopts.len() as u64);
         let total = ARITY2.len() as u64 * nf * ns * no;
